@@ -172,6 +172,24 @@ IsPair(k) == Have /\ Ev.ev = "pair" /\ Ev.kind = k
 C07_Equiv == IsPair("mode") => Ev.a = Ev.b
 C17_AsIfNeverSent == IsPair("insert") => Ev.a = Ev.b
 
+(***************************************************************************)
+(* "langout" lines: requests served from the real resource.DbResource over *)
+(* the memory backend with translations for a subset of templates, menu    *)
+(* labels and static symbols; the page is parsed into (kind, sym, variant) *)
+(* tags.  C18: every lookup is made in the session language and falls back *)
+(* to the default-language entry where no translation exists.              *)
+(***************************************************************************)
+IsLangOut == Have /\ Ev.ev = "langout" /\ ~Ev.err
+HasTr(kind, sym, lg) == \E j \in DOMAIN Ev.translated : Ev.translated[j] = [kind |-> kind, sym |-> sym, lang |-> lg]
+\* templates and menu labels are looked up when the page is rendered: in the language the session has after the request
+C18_Translate == IsLangOut => \A i \in DOMAIN Ev.tags : Ev.tags[i].kind \in {"T", "L"} =>
+                    Ev.tags[i].variant = IF Ev.lang # "" /\ HasTr(Ev.tags[i].kind, Ev.tags[i].sym, Ev.lang) THEN Ev.lang ELSE "default"
+\* static symbols are loaded while the request executes: in the language the session had when the request began
+\* (the nodes that load them do not switch language)
+C18_TranslateStatic == IsLangOut /\ Ev.lang = Ev.langbefore => \A i \in DOMAIN Ev.tags : Ev.tags[i].kind = "S" =>
+                    Ev.tags[i].variant = IF Ev.lang # "" /\ HasTr("S", Ev.tags[i].sym, Ev.lang) THEN Ev.lang ELSE "default"
+C18_PageHasText == IsLangOut /\ Ev.cont => Ev.tags # <<>>
+
 \* ---- hook soundness
 Continuity == (l > 2 /\ Have /\ Ev.ev = "instr" /\ Ev.seq > 0) =>
                  LET p == Trace[l - 2] IN p.ev = "instr" /\ p.sid = Ev.sid /\ p.req = Ev.req /\ p.seq + 1 = Ev.seq /\ p.post = Ev.pre
